@@ -331,11 +331,32 @@ def first_admissible(run_cls, start, first):
     return True
 
 
+def wholly_known(start, first):
+    """True iff every schedule of the shard (start, first) lies in the region of a listed, unrepaired finding (the
+    provider thread dies with that finding whatever follows).  Such a shard would be vacuous once the regions are
+    excluded, so it is not generated; the finding itself is replayed from its recorded witness on every run."""
+    import itertools
+
+    from crosshair.util import IgnoreAttempt
+
+    listed = set(_KF_CELLS)
+    if not listed or classify(start, [first] + [A_IDLE] * (N - 1)) not in listed:
+        return False
+    for rest in itertools.product(range(NA_FULL), repeat=N - 1):
+        try:
+            if classify(start, [first] + list(rest)) not in listed:
+                return False
+        except IgnoreAttempt:
+            continue
+    return True
+
+
 def _shards():
     starts = tier(_STARTS_QUICK, _STARTS_THOROUGH)
     if tier(True, False):
         return [{"start": s} for s in starts]
-    return [{"start": s, "first": f} for s in starts for f in range(NA_FULL) if first_admissible(Run, s, f)]
+    return [{"start": s, "first": f} for s in starts for f in range(NA_FULL)
+            if first_admissible(Run, s, f) and not wholly_known(s, f)]
 
 
 _FIRST = shard("first", -1)
